@@ -178,6 +178,25 @@ def run_float32(ctx, n):
         for name, f, g, exact, pre in U:
             if pre is None or pre(t):
                 check(ctx, name + '_f32', [t], f, g, True, reqs, meta)
+        if k % 2 == 0:
+            # binary operations whose float32 result overflows although the float64 result does not (operands with entries and defaults
+            # that are powers of two near the float32 limit: exactly representable, so there is no double rounding): the default of the
+            # result must overflow to +-inf as torch's elements do (finding D54: it is computed with Python floats and stays finite, which
+            # a float32 tensor cannot hold: to_dense() of the result raises)
+            huge = [2.0 ** 127, -2.0 ** 127, 2.0 ** 100, -2.0 ** 100, 1.0, 0.0, 2.0]
+            a = random_pt(ctx.rng, types, dtype=torch.float32, values=huge, defaults=huge, specials=0.0)
+            b_ = random_pt(ctx.rng, types, dtype=torch.float32, values=huge, defaults=huge, specials=0.0)
+            ctx.count('float32-huge')
+            overflow = lambda x: math.isinf(torch.tensor(x, dtype=torch.float64).to(torch.float32).item())
+            for name, f, g, exact in binary_ops():
+                if name in ('add', 'sub', 'mul', 'maximum', 'imul'):
+                    try:
+                        dd = g(torch.tensor(a.default, dtype=torch.float64), torch.tensor(b_.default, dtype=torch.float64)).item()
+                    except Exception:  # noqa
+                        dd = 0.0
+                    EXTRA_TAGS[:] = ['float32-default-overflow'] if math.isfinite(dd) and overflow(dd) else []
+                    check(ctx, name + '_f32huge', [a, b_], f, g, True, reqs, meta)
+            EXTRA_TAGS[:] = []
 
 
 def run_zero_size(ctx, n):
